@@ -1,6 +1,7 @@
 import Proofs.Lifecycle
 import Proofs.Backoff
 import PikoModel.Generated.Facts
+import Proofs.SysLeave
 /-!
 # C18 — Losing a node: traffic is withdrawn from it and recovers on the survivors
 
@@ -941,5 +942,221 @@ example :
     Backoff.joinOnStartup [f, f, f] =
       ⟨.stillRetrying, 3, [1000000000, 2000000000, 4000000000]⟩ := by
   decide
+
+/-! ## The whole system: a graceful leave in the one model of gossip + syncer + manager
+
+`PikoModel/Sys/System.lean` (see `Props/C04.lean`, `Props/C01.lean`): `Gossip.Leave` of node `a` is
+`SysOp.leave a` (`LeaveLocal`: the left marker is written to `a`'s own state) followed by one
+`SysOp.leaveStream a r now` per notified peer (`a` pushes its `LocalDelta` to `r`).  The theorems
+below are about every reachable state (`SysAllowed` history: boots, upstream connects/disconnects,
+compactions, gossip traffic with loss, duplication, reordering, truncation) and compose
+
+* C17/C05 (`markerOK_runRev`: a node flagged left holds its live left marker - the subscriber never
+  writes the reserved key, compaction keeps it),
+* C03 (`applyEntries_catches_up`: a full push of the owner's state catches the receiver up,
+  whatever it knew; `C03_converges`),
+* C02 (`C02_caught_up_exact`: a caught-up view is the owner's map, marker included),
+* C11 (`C11_net_invariant`: a view holding the marker is flagged left),
+* C14 + C04 (`NodeInv.fold_view`, `NodeInv.rel`: the routing-table row is what `C04_table_spec` says
+  about the notification fold; a node flagged left has status `left` or no row),
+* `not_candidate_of_status` (`C18_left_stops_routing`, third clause).
+
+Unlike `C18_left_stops_routing`/`C18_shutdown_order` (whose `LeaveDelta` admits no internal entry but
+the marker) they also cover a leaver that has compacted its state before. -/
+
+/-- **A notified peer stops routing to the leaver at once.**  In any reachable state let `a` perform
+`LeaveLocal` and push its state to `r ≠ a`.  Immediately after that step, at `r`: the gossip view of
+`a` is flagged left; `a` is not pending; the routing-table row of `a` - which is still there if it
+was there before - has status `left`; `a` is in no `LookupEndpoint` candidate set, for any endpoint,
+so `Select` at `r` never returns `a`. -/
+theorem C18_system_leave_notified (ops : List SysOp) (hall : SysAllowed ops) (a r : String) (hne : r ≠ a)
+    (now : Nat) (xa0 xr0 : SysNode) (ha0 : (Sys.runRev ops).node a = some xa0)
+    (hr0 : (Sys.runRev ops).node r = some xr0) :
+    SysAllowed (.leaveStream a r now :: .leave a :: ops) ∧
+    ∃ xr V, (Sys.runRev (.leaveStream a r now :: .leave a :: ops)).node r = some xr ∧
+      xr.mgr.gossip.nodes.find a = some V ∧ V.left = true ∧
+      xr.sync.pending.find a = none ∧
+      (∀ row, xr.mgr.cluster.nodes.find a = some row → row.status = .left) ∧
+      (∀ row0, xr0.mgr.cluster.nodes.find a = some row0 →
+        ∃ row, xr.mgr.cluster.nodes.find a = some row ∧ row.status = .left) ∧
+      (∀ e, ∀ c ∈ xr.mgr.cluster.lookupCandidates e, c.id ≠ a) ∧
+      (∀ e allow cs, (xr.mgr.select e allow).1 = .remote cs → a ∉ cs) := by
+  have hall1 : SysAllowed (.leave a :: ops) := ⟨hall, trivial⟩
+  have hall2 : SysAllowed (.leaveStream a r now :: .leave a :: ops) := ⟨hall1, trivial⟩
+  refine ⟨hall2, ?_⟩
+  obtain ⟨sda, ga, hsa, hga, rfl⟩ := Sys.node_eq ha0
+  obtain ⟨sdr, gr, hsr, hgr, rfl⟩ := Sys.node_eq hr0
+  have hnea : ¬ a = r := fun e => hne e.symm
+  -- after `LeaveLocal`
+  have hs1 : Sys.runRev (.leave a :: ops) =
+      { net := (Sys.runRev ops).net.setNode a (leaveLocal ga), side := (Sys.runRev ops).side } :=
+    Sys.step_leave_eq hga
+  have hga1 : (Sys.runRev (.leave a :: ops)).net.nodes.find a = some (leaveLocal ga) := by
+    rw [hs1]; simp [Net.setNode]
+  have hgr1 : (Sys.runRev (.leave a :: ops)).net.nodes.find r = some gr := by
+    rw [hs1]; simp [Net.setNode, AMap.find_insert, hnea, hgr]
+  have hsr1 : (Sys.runRev (.leave a :: ops)).side.find r = some sdr := by rw [hs1]; exact hsr
+  -- the push catches `r` up, hence `r` sees the marker
+  obtain ⟨gr', V, h1, h2, h3, h4⟩ := Sys.leaveStream_caught_up _ hall1 hne now hga1 hgr1
+  have hl : V.left = true :=
+    Sys.left_of_caught_up _ hall2 hne h1 h2 h3 h4 (C11.own_left_leaveLocal ga)
+  have hinv2 := sysInv_runRev _ hall2
+  obtain ⟨sd2, hsd2⟩ := hinv2.side_of_net h1
+  have hnode : (Sys.runRev (.leaveStream a r now :: .leave a :: ops)).node r =
+      some { mgr := { lbs := sd2.lbs, cluster := sd2.table, gossip := gr' }, sync := sd2.sync, evs := sd2.evs } := by
+    simp [Sys.node, hsd2, h1]
+  obtain ⟨hp, hrow, hc, hsel⟩ := Sys.left_view_not_routed _ hall2 hne hnode h3 hl
+  refine ⟨_, V, hnode, h3, hl, hp, hrow, ?_, hc, hsel⟩
+  intro row0 hrow0
+  obtain ⟨sd', hsd', hsome⟩ := Sys.recv_keeps_row (sysInv_runRev _ hall1) (.leaveStream a r now) trivial
+    (fun _ _ _ => by simp) (fun _ _ _ => by simp) hsr1 (a := a) (by simp only [] at hrow0; rw [hrow0]; rfl)
+  have hsd'' : (Sys.runRev (.leaveStream a r now :: .leave a :: ops)).side.find r = some sd' := hsd'
+  rw [hsd2] at hsd''; cases hsd''
+  cases hf : sd2.table.nodes.find a with
+  | none => rw [hf] at hsome; cases hsome
+  | some row => exact ⟨row, rfl, hrow row hf⟩
+
+/-- **Whoever holds the leaver's current version no longer routes to it** - however it came to hold
+it (the leaver's push, a join with the leaver, a pull, a relay through third parties).  In every
+reachable state: if `a`'s own state is flagged left and `q ≠ a`'s gossip view of `a` has `a`'s
+version, then that view is flagged left, `a` is not pending at `q`, its row (if any) has status
+`left`, and `a` is no `LookupEndpoint` candidate / `Select` result at `q`. -/
+theorem C18_system_caught_up_stops_routing (ops : List SysOp) (hall : SysAllowed ops) (a q : String)
+    (hne : q ≠ a) (xa xq : SysNode) (ha : (Sys.runRev ops).node a = some xa)
+    (hq : (Sys.runRev ops).node q = some xq) (hleft : (own xa.mgr.gossip).left = true)
+    (V : NodeSt) (hV : xq.mgr.gossip.nodes.find a = some V)
+    (hcaught : V.version = (own xa.mgr.gossip).version) :
+    V.left = true ∧ xq.sync.pending.find a = none ∧
+    (∀ row, xq.mgr.cluster.nodes.find a = some row → row.status = .left) ∧
+    (∀ e, ∀ c ∈ xq.mgr.cluster.lookupCandidates e, c.id ≠ a) ∧
+    (∀ e allow cs, (xq.mgr.select e allow).1 = .remote cs → a ∉ cs) := by
+  have hl : V.left = true := by
+    obtain ⟨sda, ga, hsa, hga, rfl⟩ := Sys.node_eq ha
+    obtain ⟨sdq, gq, hsq, hgq, rfl⟩ := Sys.node_eq hq
+    exact Sys.left_of_caught_up _ hall hne hgq hga hV hcaught hleft
+  exact ⟨hl, Sys.left_view_not_routed _ hall hne hq hV hl⟩
+
+/-- **The rest follow through gossip.**  `a` has left (`ops` is any reachable state in which its own
+state is flagged left, e.g. the one after `SysOp.leave a`); `sched` is any quiet schedule (receive-side
+steps only) that contains the stream exchange `join q a` for a node `q ≠ a`.  At the end `q`'s view of
+`a` is flagged left, `a` is not pending at `q`, its row (if any) has status `left`, and `a` is no
+lookup candidate at `q`.
+
+(A pull/relay `q ← r'` from a third node `r'` that is caught up on `a` has the same effect *provided*
+it brings `q` to `a`'s version: that is `C18_system_caught_up_stops_routing`.  That one such exchange
+does bring `q` to `a`'s version is proved at network level only for exchanges with the owner
+(`C03_join_catches_up`, `C03_pull_round_catches_up`); a relay lemma is missing.) -/
+theorem C18_system_leave_spreads (ops sched : List SysOp) (hall : SysAllowed (sched ++ ops))
+    (hq : ∀ op ∈ sched, op.quiet.isSome = true) (a q : String) (hne : q ≠ a)
+    (xa0 : SysNode) (ha0 : (Sys.runRev ops).node a = some xa0) (hleft : (own xa0.mgr.gossip).left = true)
+    (hq0 : ((Sys.runRev ops).node q).isSome = true)
+    (hjoin : ∃ now, SysOp.join q a true now ∈ sched)
+    (xq : SysNode) (hq1 : (Sys.runRev (sched ++ ops)).node q = some xq) :
+    ∃ V, xq.mgr.gossip.nodes.find a = some V ∧ V.left = true ∧ xq.sync.pending.find a = none ∧
+      (∀ row, xq.mgr.cluster.nodes.find a = some row → row.status = .left) ∧
+      (∀ e, ∀ c ∈ xq.mgr.cluster.lookupCandidates e, c.id ≠ a) ∧
+      (∀ e allow cs, (xq.mgr.select e allow).1 = .remote cs → a ∉ cs) := by
+  obtain ⟨xa1, ha1, _, _, hown⟩ := Sys.quiet_keeps sched ops hall hq a xa0 ha0
+  obtain ⟨V, hV, hver⟩ := Sys.caught_up_after_join ops sched hall hq q a hne hq0 (by rw [ha0]; rfl) hjoin
+    xq xa1 hq1 ha1
+  exact ⟨V, hV, C18_system_caught_up_stops_routing _ hall a q hne xa1 xq ha1 hq1 (by rw [hown]; exact hleft)
+    V hV hver⟩
+
+/-- **After a settle schedule nobody routes to the leaver.**  `a` has left; `sched` is a settle
+schedule as in `C04_caught_up_after_settle` (quiet, containing `join r b` for every ordered pair of
+nodes).  In the resulting state NO node has `a` as a `LookupEndpoint` candidate for any endpoint, and
+`Select` returns `a` at no node. -/
+theorem C18_system_leave_settled (ops sched : List SysOp) (hall : SysAllowed (sched ++ ops))
+    (hq : ∀ op ∈ sched, op.quiet.isSome = true)
+    (hjoins : ∀ r b, r ≠ b → ((Sys.runRev ops).node r).isSome = true → ((Sys.runRev ops).node b).isSome = true →
+      ∃ now, SysOp.join r b true now ∈ sched)
+    (a : String) (xa0 : SysNode) (ha0 : (Sys.runRev ops).node a = some xa0)
+    (hleft : (own xa0.mgr.gossip).left = true)
+    (q : String) (xq : SysNode) (hq1 : (Sys.runRev (sched ++ ops)).node q = some xq) :
+    (∀ e, ∀ c ∈ xq.mgr.cluster.lookupCandidates e, c.id ≠ a) ∧
+    (∀ e allow cs, (xq.mgr.select e allow).1 = .remote cs → a ∉ cs) := by
+  have hcand : ∀ e, ∀ c ∈ xq.mgr.cluster.lookupCandidates e, c.id ≠ a := by
+    by_cases hne : q = a
+    · subst hne; exact Sys.self_not_candidate _ hall hq1
+    · obtain ⟨xa1, ha1, _, _, hown⟩ := Sys.quiet_keeps sched ops hall hq a xa0 ha0
+      obtain ⟨V, hV, hver⟩ := C04_caught_up_after_settle ops sched hall hq hjoins q a hne xq xa1 hq1 ha1
+      exact (C18_system_caught_up_stops_routing _ hall a q hne xa1 xq ha1 hq1 (by rw [hown]; exact hleft)
+        V hV hver).2.2.2.1
+  exact ⟨hcand, fun e allow cs hs => Upstream.select_remote_not (hcand e) hs⟩
+
+open Piko.Proxy in
+/-- **Routing around the leaver.**  After a settle schedule on a cluster that is healthy except that
+`a` has left (`SysHealthyExcept`: `a` flagged left, nobody else; no other node suspected; the other
+nodes' addresses non-empty and distinct), a client request for endpoint `e` entering at any node other
+than `a` is delivered to an upstream registered for `e` on a node **other than `a`** if one of them
+has one, and is answered 502 by the entry node if none of them has - in particular when `e` is
+registered only on `a` (whose upstream handlers may not have drained: `C18_leave_races_handlers`). -/
+theorem C18_system_leave_routing (ops sched : List SysOp) (hall : SysAllowed (sched ++ ops))
+    (hq : ∀ op ∈ sched, op.quiet.isSome = true)
+    (hjoins : ∀ r b, r ≠ b → ((Sys.runRev ops).node r).isSome = true → ((Sys.runRev ops).node b).isSome = true →
+      ∃ now, SysOp.join r b true now ∈ sched)
+    (a : String) (hh : SysHealthyExcept (Sys.runRev (sched ++ ops)) a)
+    (lib : Lib) (entry : String) (hea : entry ≠ a) (x : SysNode)
+    (hentry : (Sys.runRev (sched ++ ops)).node entry = some x)
+    (r : Req) (hnf : r.forwarded = false) (e : String) (he : endpointOf lib r = some e) (choices : List Nat) :
+    ((∃ k xk, k ≠ a ∧ (Sys.runRev (sched ++ ops)).node k = some xk ∧ xk.mgr.registry e ≠ []) →
+        ∃ k xk u, k ≠ a ∧ (Sys.runRev (sched ++ ops)).node k = some xk ∧ u ∈ xk.mgr.registry e ∧
+          (route lib (Sys.runRev (sched ++ ops)).world entry r choices).1.outcome = .served k e u) ∧
+    ((∀ k xk, k ≠ a → (Sys.runRev (sched ++ ops)).node k = some xk → xk.mgr.registry e = []) →
+        (route lib (Sys.runRev (sched ++ ops)).world entry r choices).1 =
+          { visited := [entry], via := [], outcome := .noUpstream entry }) := by
+  have hinv := sysInv_runRev _ hall
+  obtain ⟨hs, hng⟩ := Sys.settles_except ops sched hall hq hjoins a hh
+  have hm : (Sys.runRev (sched ++ ops)).world.nodes.find entry = some x.mgr := by
+    rw [Sys.world_find hinv, hentry]; rfl
+  have hset := route_settled_except lib _ a hs hng 1 entry x.mgr hm hea r hnf e he choices
+  constructor
+  · rintro ⟨k, xk, hka, hk, hreg⟩
+    obtain ⟨k', u, hka', hout, hu⟩ := hset.1 ⟨k, hka, by rw [Sys.world_reg hinv, hk]; exact hreg⟩
+    rw [Sys.world_reg hinv] at hu
+    cases hxk' : (Sys.runRev (sched ++ ops)).node k' with
+    | none => rw [hxk'] at hu; simp at hu
+    | some xk' =>
+      rw [hxk'] at hu
+      exact ⟨k', xk', u, hka', hxk', hu, hout⟩
+  · intro hnone
+    apply hset.2
+    intro k hka
+    rw [Sys.world_reg hinv]
+    cases hxk : (Sys.runRev (sched ++ ops)).node k with
+    | none => rfl
+    | some xk => exact hnone k xk hka hxk
+
+/-- **A leaver that closed its upstream connections first advertises nothing.**  In any reachable
+state in which `a` has no registered upstream (every `AddConn` matched by its `RemoveConn`: the
+handlers have drained, the model of "closes the upstream connections first"):
+1. the delta `a` pushes when it leaves now (`LocalDelta` after `LeaveLocal`) contains no live
+   `endpoint:` entry - tombstones only;
+2. `LeaveLocal` changes nothing but `a`'s gossip state (the registry is still empty afterwards, so
+   1 and 3 hold of every later state in which `a` has registered nothing new);
+3. every node that is caught up with `a` lists no endpoint for `a` (whether or not `a` has left). -/
+theorem C18_system_leaver_advertises_nothing (ops : List SysOp) (hall : SysAllowed ops) (a : String)
+    (xa : SysNode) (ha : (Sys.runRev ops).node a = some xa) (hempty : ∀ e, xa.mgr.registry e = []) :
+    (∀ de ∈ localDelta (leaveLocal xa.mgr.gossip), ∀ x ∈ de.entries, ∀ e,
+      x.key = "endpoint:" ++ e → x.deleted = true) ∧
+    (∃ xa', (Sys.runRev (.leave a :: ops)).node a = some xa' ∧
+      xa'.mgr.gossip = leaveLocal xa.mgr.gossip ∧ (own xa'.mgr.gossip).left = true ∧
+      (∀ e, xa'.mgr.registry e = [])) ∧
+    (∀ r xr V row, r ≠ a → (Sys.runRev ops).node r = some xr → xr.mgr.gossip.nodes.find a = some V →
+      V.version = (own xa.mgr.gossip).version → xr.mgr.cluster.nodes.find a = some row →
+      ∀ e, row.endpoints.find e = none) := by
+  refine ⟨?_, ?_, ?_⟩
+  · obtain ⟨sda, ga, hsa, hga, rfl⟩ := Sys.node_eq ha
+    have hni := (sysInv_runRev ops hall).node a sda ga hsa hga
+    refine leave_delta_no_live_endpoint hni.ownwf (fun e => ?_)
+    have := hni.minv.adv e
+    rw [hempty e] at this
+    exact this
+  · have h := Sys.node_after_leave ha a
+    simp only [if_true] at h
+    exact ⟨_, h, rfl, C11.own_left_leaveLocal _, hempty⟩
+  · intro r xr V row hne hr hV hver hrow e
+    have := Sys.row_eps_of_caught_up ops hall hne hr ha hV hver (fun e => by rw [hempty e]; decide) hrow e
+    rw [this, hempty e]; rfl
 
 end Piko
